@@ -16,7 +16,9 @@ def load_checks():
             continue
         p = mod.PROP
         if getattr(p, "claimed", True):
-            out[pid] = (p.level_text, p.level_note + COMMON_NOTE, p.design_ref)
+            cone = "docs/cones/%s.md" % pid
+            ref = "DESIGN.md §3 (entry %s)" % pid + ("; " + cone if os.path.exists(os.path.join(VERIF, cone)) else "") + "; defects: DESIGN.md §4"
+            out[pid] = (p.level_text, p.level_note + COMMON_NOTE, ref)
     return out
 CHECKS = load_checks()
 NA_REASONS = {}
